@@ -7,4 +7,5 @@ INVARIANT InvRejected
 INVARIANT InvKnownBadTight
 INVARIANT InvAcceptSpec
 INVARIANT InvCandidates
+INVARIANT InvRepFree
 CHECK_DEADLOCK FALSE
